@@ -65,10 +65,10 @@ Theorem C13_exit_closes : forall x, life x = Closing -> life (fst (local_step AE
 Proof. exact exit_end_closes. Qed.
 Print Assumptions C13_exit_closes.
 
-(* leaving a context while a child entered from it is still open is reported *)
+(* leaving a context while a child entered from it is still open is reported -- whichever
+   context it is and however its block ended *)
 Theorem C13_open_child_reported : forall s c x,
   nth_error s c = Some x -> life x = Closing -> has_open_child s c = true ->
-  (parent x <> None \/ blockexc x = false) ->
   exists ran, snd (step s (At c AExitEnd)) = Exited ran true.
 Proof. exact open_child_reported. Qed.
 Print Assumptions C13_open_child_reported.
